@@ -68,7 +68,7 @@ def combos2 : List Nat → List (Nat × Nat)
 /-- stable insertion sort by `order` -/
 def insertRel (x : RelItem) : List RelItem → List RelItem
   | [] => [x]
-  | y :: ys => if x.order < y.order then x :: y :: ys else y :: insertRel x ys
+  | y :: ys => if x.order ≤ y.order then x :: y :: ys else y :: insertRel x ys
 
 def sortRel (l : List RelItem) : List RelItem := l.foldr insertRel []
 
